@@ -229,4 +229,23 @@ def dictTransform (d : List HM) (ksrc kdst : Arg) (x : TArg) : Except String TAr
       | some m => (inv m).transform x
       | none => .error "KeyError"
 
+/-! ## modifying a registry
+
+The registry is a plain dictionary: every query is answered from the contents at the time of the
+query.  `reg[TransformKey(m.src, m.dst)] = m` is modelled by appending (`lookup` finds the last
+match, so appending overwrites), `del reg[k]` by removing every entry with that key, and
+`copy.deepcopy(reg)` by the same list. -/
+
+/-- `reg[(m.src, m.dst)] = m` -/
+def dictSet (d : List HM) (m : HM) : List HM := d ++ [m]
+
+/-- the contents after `del reg[k]` -/
+def dictErase (d : List HM) (k : String × String) : List HM := d.filter (fun m => decide (m.key ≠ k))
+
+/-- `del reg[k]`: `KeyError` when the key is not registered -/
+def dictDel (d : List HM) (k : String × String) : Except String (List HM) :=
+  match lookup d k with
+  | none => .error "KeyError"
+  | some _ => .ok (dictErase d k)
+
 end PEval.Transform
